@@ -172,9 +172,13 @@ def check_world(case):
         for j, inp in enumerate(w["inputs"]):
             if t == "swap-outputs":
                 committed |= _commits(inp, j, n_out, "swap-outputs", 0) or (_commits(inp, j, n_out, "output-script", 0) or _commits(inp, j, n_out, "output-script", 1))
+            elif t == "drop-output" and ((inp.get("sighash") or 1) & 3) == 3:
+                # a SINGLE input commits to the output at its own position and to nothing else of the outputs: dropping output k shifts the
+                # later ones, so what it committed to is changed exactly when the output now at position j is another one (two equal outputs
+                # in a row are not) or is gone; an input that had no output of its own (j >= n_out) committed to none before or after
+                committed |= j < n_out and (j >= len(tx2["vout"]) or tx2["vout"][j] != tx["vout"][j])
             elif t == "drop-output":
-                # dropping output k shifts the later ones: SINGLE inputs at or after k lose or change their output
-                committed |= _commits(inp, j, n_out, "drop-output", k) or (((inp.get("sighash") or 1) & 3) == 3 and k <= j < n_out)
+                committed |= _commits(inp, j, n_out, "drop-output", k)
             else:
                 committed |= _commits(inp, j, n_out, t, k)
         with backend(case["backend"]):
@@ -237,7 +241,7 @@ def check_message(case):
             via_b64 = bip322.verify(msg, addr, sig.b64encode())
     if ok is not True or via_b64 is not True:
         raise Violation(f"messages:{case['scheme']}:own-signature-does-not-verify:{kind}:bindings={case['backend']}", addr)
-    if wrong_key is not False:
+    if wrong_key is not False and addr_other != addr:  # q and n - q share an x-only key, hence a taproot address: not another key
         raise Violation(f"messages:{case['scheme']}:verifies-for-another-key:{kind}", addr_other)
     if wrong_msg is not False:
         raise Violation(f"messages:{case['scheme']}:verifies-for-another-message:{kind}", "")
